@@ -2,7 +2,7 @@
    Only statements, `exact <lemma>` and Print Assumptions live here.  All statements are for unbounded
    contig sizes and interval counts.  [cov I x] is the number of intervals of I covering base x. *)
 From Coq Require Import ZArith List Bool Permutation.
-From BNP Require Import Base.Prims Model.C08 Proofs.C08 Proofs.C08_merge Proofs.C08_overlap Proofs.C08_sim Proofs.C08_bg.
+From BNP Require Import Base.Prims Model.C08 Proofs.C08 Proofs.C08_merge Proofs.C08_overlap Proofs.C08_sim Proofs.C08_bg Gen.C08 Bridge.C08.
 Import ListNotations.
 Open Scope Z_scope.
 
@@ -159,6 +159,51 @@ Theorem C08_unique_intersect_per_base :
   unique_intersect_model A B size = Some (unique_intersect_spec A B).
 Proof. exact unique_intersect_is_per_base. Qed.
 Print Assumptions C08_unique_intersect_per_base.
+
+(* Source tie: the per-element arithmetic regenerated on this run from /repo (Gen/C08.v, written by translate/run.py
+   from arithmetics/intervals.py, arithmetics/similarity_measures.py and genomic_data/geometry.py) is the arithmetic
+   of the model the theorems above are about: the clamps of clip (both routes) and extend_to_size, the comparisons,
+   the +distance / -distance adjustments and the two assertions of merge_intervals, the kept-interval test of
+   get_boolean_mask, the per-pair formulas of count_overlap and intersect over stops[:-1] / starts[1:], the key order of
+   the three sorts (and the order those keys define is key3_leb, the order of C08_sort_perm), the layout of the
+   contingency table and the Jaccard / Forbes fractions. *)
+Theorem C08_source_tie :
+  (forall s e size, gen_clip_start s e size = fst (clip_one size (s, e)) /\ gen_clip_stop s e size = snd (clip_one size (s, e))
+                 /\ gen_geom_clip_start s e size = fst (clip_one size (s, e)) /\ gen_geom_clip_stop s e size = snd (clip_one size (s, e)))
+  /\ (forall tag s e frag size,
+        gen_extend_start (tag =? 1) s e frag size = t_start (extend_one size frag (tag, s, e))
+        /\ gen_extend_stop (tag =? 1) s e frag size = t_stop (extend_one size frag (tag, s, e)))
+  /\ gen_extend_forward_symbol = extend_forward_symbol
+  /\ (forall a b, gen_merge_sorted_pair a b = m_merge_sorted_pair a b /\ gen_merge_new_run a b = m_merge_new_run a b
+                /\ gen_merge_assert a b = m_merge_new_run a b /\ gen_mask_keep a b = m_mask_keep a b
+                /\ gen_count_overlap_term a b = m_overlap_term a b /\ gen_intersect_keep a b = m_intersect_keep a b
+                /\ gen_intersect_piece a b = m_intersect_piece a b)
+  /\ (forall d l, map (gen_merge_shift d) l = m_merge_shift d l /\ map (gen_merge_unshift d) l = m_merge_unshift d l)
+  /\ gen_count_overlap_sorted = count_overlap_sorted
+  /\ (gen_sort_lex_keys = sort_lex_keys /\ gen_sort_tuple_keys = sort_tuple_keys /\ gen_geom_sort_keys = geom_sort_keys
+      /\ (forall a b, leb_of_keys gen_sort_lex_keys a b = Some (key3_leb a b))
+      /\ (forall a b, leb_of_keys (removelast gen_sort_tuple_keys) a b = Some (key3_leb a b))
+      /\ (forall I, sort_lex_model I = isort key3_leb I /\ sort_full_model I = isort key3_leb I /\ geom_sort_leb = key3_leb))
+  /\ (forall x y : bool, gen_table_00 x y = m_cell_00 x y /\ gen_table_01 x y = m_cell_01 x y
+                       /\ gen_table_10 x y = m_cell_10 x y /\ gen_table_11 x y = m_cell_11 x y)
+  /\ (forall a b c d, gen_jaccard_num a b c d = m_jaccard_num a b c d /\ gen_jaccard_den a b c d = m_jaccard_den a b c d
+                    /\ gen_forbes_num a b c d = m_forbes_num a b c d /\ gen_forbes_den a b c d = m_forbes_den a b c d).
+Proof.
+  refine (conj (fun s e size => conj (b_clip_start s e size) (conj (b_clip_stop s e size) (conj (b_geom_clip_start s e size) (b_geom_clip_stop s e size))))
+         (conj (fun tag s e frag size => conj (b_extend_start tag s e frag size) (b_extend_stop tag s e frag size))
+         (conj b_extend_forward_symbol
+         (conj (fun a b => conj (b_merge_sorted_pair a b) (conj (b_merge_new_run a b) (conj (b_merge_assert a b) (conj (b_mask_keep a b)
+                           (conj (b_count_overlap_term a b) (conj (b_intersect_keep a b) (b_intersect_piece a b)))))))
+         (conj (fun d l => conj (b_merge_shift d l) (b_merge_unshift d l))
+         (conj b_count_overlap_sorted
+         (conj (conj b_sort_lex_keys (conj b_sort_tuple_keys (conj b_geom_sort_keys
+                 (conj (fun a b => eq_ind_r (fun k => leb_of_keys k a b = Some (key3_leb a b)) (keys_order a b) b_sort_lex_keys)
+                 (conj (fun a b => eq_ind_r (fun k => leb_of_keys (removelast k) a b = Some (key3_leb a b)) (tuple_keys_order a b) b_sort_tuple_keys)
+                       sort_models_use_key3)))))
+         (conj (fun x y => conj (b_table_00 x y) (conj (b_table_01 x y) (conj (b_table_10 x y) (b_table_11 x y))))
+               (fun a b c d => conj (b_jaccard_num a b c d) (conj (b_jaccard_den a b c d) (conj (b_forbes_num a b c d) (b_forbes_den a b c d)))))))))))).
+Qed.
+Print Assumptions C08_source_tie.
 
 (* non-vacuity: concrete inputs meeting the hypotheses, on which the executable model returns the expected,
    non-trivial values (nested + duplicated + touching intervals, an interval ending at the last base) *)
